@@ -43,6 +43,7 @@ BOUNDS = {
     "thorough": {"coarse": "all interleavings (2 threads; lru harness bound 5), bound 3 (3 threads)", "fine_preemption_bound": 2, "threads": "2-3"},
 }
 READY = True
+PIN_CPUS = True  # baton hand-offs between the threads of one worker stay on one core
 
 _PROC = {}
 
